@@ -9,6 +9,7 @@
     DESIGN.md. *)
 From FV Require Import Base.Bytes Codec.Value Codec.Dec Proofs.DecTotal.
 From FV Require Import Conn.Lifecycle Proofs.LifecycleProofs Session.SessLife Auth.SaslListener Proofs.SaslProofs.
+From FV Require Import Frame.AmqpFrame Proofs.AmqpFrameProofs.
 Open Scope N_scope.
 
 (** whatever bytes a frame body holds, decoding them returns a value or an error - never a panic,
@@ -39,3 +40,18 @@ Theorem C15_sasl_out_of_turn :
     fst (lstep m s a) = LFailed /\ In LAcceptErr (snd (lstep m s a)).
 Proof. intros m s a n0 rest H1 H2 H3. destruct (deviation_fails m s a n0 rest H1 H2 H3) as (A & B & _). split; assumption. Qed.
 Print Assumptions C15_sasl_out_of_turn.
+
+(** the frame decoder (header, performative dispatch, typed field loop, payload) is total too: whatever
+    bytes follow the size field it returns a frame or an error - no panic for any fuel, and fuel
+    length + 1 always suffices *)
+Theorem C15_frame_decoder_total :
+  forall bs, (forall fuel, dec_frame fuel bs <> Panic) /\ dec_frame (S (length bs)) bs <> OutOfFuel.
+Proof. exact dec_frame_total. Qed.
+Print Assumptions C15_frame_decoder_total.
+
+(** frames of an unknown type or with an extended header, and frames shorter than their header, are errors *)
+Theorem C15_malformed_frame_header_is_an_error :
+  (forall fuel doff ftype c1 c0 body, (ftype <> 0 \/ doff <> 2) -> exists e, dec_frame fuel (doff :: ftype :: c1 :: c0 :: body) = Err e) /\
+  (forall fuel bs, (length bs < 4)%nat -> exists e, dec_frame fuel bs = Err e).
+Proof. exact (conj header_rules short_frame_refused). Qed.
+Print Assumptions C15_malformed_frame_header_is_an_error.
